@@ -11,12 +11,12 @@ CONSTANTS MaxSeats, Players, Props,
 VARIABLES m, out, h
 vars == <<m, out, h>>
 
-Init == m = NewSM(MaxSeats) /\ out = [op |-> "new", seat |-> -1, p |-> -1, got |-> -1, res |-> ""] /\ h = HistS0
+Init == m = NewSM(MaxSeats) /\ out = [op |-> "new", seat |-> -1, p |-> -1, got |-> -1, res |-> "", left |-> <<>>, cbs |-> <<>>, pos |-> <<>>] /\ h = HistS0
 Seated(mm) == {mm.seat[s].player : s \in SeatIds(mm)} \ {NULL}
 \* player ids are opaque: joining with the smallest free id loses no generality
 MinFree(mm) == LET F == Players \ Seated(mm) IN IF F = {} THEN {} ELSE {CHOOSE p \in F : \A q \in F : p <= q}
 Do(name, s, p, got, r) ==
-  LET o == [op |-> name, seat |-> s, p |-> p, got |-> got, res |-> r.res] IN
+  LET o == [op |-> name, seat |-> s, p |-> p, got |-> got, res |-> r.res, left |-> <<>>, cbs |-> <<>>, pos |-> <<>>] IN
   m' = r.m /\ out' = o /\ h' = HistSNext(h, m, r.m, o)
 Next ==
   /\ ~m.crashed
